@@ -17,6 +17,7 @@ import (
 	"strings"
 	"sync"
 	"testing"
+	"unicode/utf8"
 
 	"pgregory.net/rapid"
 )
@@ -88,6 +89,15 @@ func (c *Case) Set(k string, v any) {
 		c.order = append(c.order, k)
 	}
 	c.data[k] = v
+}
+
+// SetBytes records a byte string that may not be valid UTF-8 (stored Go-quoted).
+func (c *Case) SetBytes(k string, b []byte) {
+	if utf8.Valid(b) {
+		c.Set(k, string(b))
+		return
+	}
+	c.Set(k+"_goquoted", strconv.Quote(string(b)))
 }
 
 // Class bumps a histogram class for this case (counted when the case ends).
